@@ -154,6 +154,7 @@ type crossRun struct {
 	sde   bool
 }
 
+// runCLI builds one format with the nfpm binary. A "UMASK=0xx" pseudo variable in env sets the process umask.
 func runCLI(c *BuildCase, root, f, out string, env []string, relative bool, cfgName string) ([]byte, error) {
 	cc := *c
 	cc.RelSrc = relative
@@ -161,6 +162,11 @@ func runCLI(c *BuildCase, root, f, out string, env []string, relative bool, cfgN
 		return nil, err
 	}
 	cmd := exec.Command(nfpmBinary(), "package", "-f", filepath.Join(root, cfgName), "-p", f, "-t", out)
+	for _, e := range env {
+		if strings.HasPrefix(e, "UMASK=") {
+			cmd = exec.Command("sh", "-c", "umask "+strings.TrimPrefix(e, "UMASK=")+"; exec \"$@\"", "sh", nfpmBinary(), "package", "-f", filepath.Join(root, cfgName), "-p", f, "-t", out)
+		}
+	}
 	cmd.Dir = root
 	cmd.Env = append(os.Environ(), env...)
 	if o, err := cmd.CombinedOutput(); err != nil {
@@ -218,9 +224,9 @@ func crossProcess(t *testing.T, st *Stats, n int) {
 	}
 	time.Sleep(1100 * time.Millisecond) // one pause for the whole batch: a later wall-clock second
 	for i, r := range runs {
-		env := []string{"TZ=Asia/Kolkata", "GOMAXPROCS=2"}
+		env := []string{"TZ=Asia/Kolkata", "GOMAXPROCS=2", "LANG=de_DE.UTF-8", "UMASK=077"}
 		if i%3 == 0 {
-			env = []string{"TZ=America/St_Johns", "GOMAXPROCS=1"}
+			env = []string{"TZ=America/St_Johns", "GOMAXPROCS=1", "LC_ALL=C", "HOME=/nonexistent", "UMASK=000"}
 		}
 		cc := *r.c
 		if r.sde {
